@@ -318,6 +318,16 @@ pub fn record_token(sector: u64, extent: &[u8]) -> u16 {
     fold16(c)
 }
 
+/// The 16-bit fold of the record checksum BEFORE the "never zero" rule is applied (0 here means the documented
+/// token is 1).
+pub fn record_token_raw_fold(sector: u64, extent: &[u8]) -> u16 {
+    let mut c = crc32c_fast(0, &sector.to_le_bytes());
+    c = crc32c_fast(c, &extent[..2]);
+    c = crc32c_fast(c, &[0, 0]);
+    c = crc32c_fast(c, &extent[4..]);
+    ((c >> 16) ^ (c & 0xffff)) as u16
+}
+
 /// Serialise a record as it must appear on a device of `version`, landing at `sector`.
 pub fn encode_record(version: u32, key: &[u8], value: &[u8], ts: u64, expiry: u64, sector: u64) -> Vec<u8> {
     let mut d = Vec::new();
